@@ -36,6 +36,7 @@ type FileSpec struct {
 	Path    B    `json:"path"`
 	Dir     bool `json:"dir"`
 	Content B    `json:"content"`
+	Link    B    `json:"link,omitempty"` // a symbolic link to this path (a candidate reached through a link is a file all the same)
 }
 
 type Input struct {
@@ -318,6 +319,13 @@ func genCase(r *rng.R, malformed bool) Input {
 		in.Files = append(in.Files, FileSpec{Path: B(p), Content: B(g.content(r, false))})
 	}
 
+	// the first file of the chain is sometimes a symbolic link (a ~/.layercake kept in a dotfiles checkout)
+	if len(in.Files) > 0 && !in.Files[0].Dir && r.Chance(1, 5) {
+		orig := in.Files[0]
+		real := FileSpec{Path: B(string(orig.Path) + ".real"), Content: orig.Content}
+		in.Files[0] = real
+		in.Files = append(in.Files, FileSpec{Path: orig.Path, Link: real.Path})
+	}
 	// ---- switches and environment
 	in.Home = B(T + "/home")
 	in.Argv0 = B(T + "/usr/bin/layercake")
@@ -623,6 +631,12 @@ func Run(in Input) (c *common.Case) {
 		}
 		if err := os.MkdirAll(filepath.Dir(p), 0755); err != nil {
 			return fail("%v", err)
+		}
+		if len(f.Link) > 0 {
+			if err := os.Symlink(sub(f.Link), p); err != nil {
+				return fail("%v", err)
+			}
+			continue
 		}
 		if err := os.WriteFile(p, []byte(sub(f.Content)), 0644); err != nil {
 			return fail("%v", err)
